@@ -138,6 +138,28 @@ func keeperPhase(c *vf.Ctx) {
 					rest -= amt
 					outs = append(outs, bank.Output{Address: addrN(rng.IntN(nAddr)), Coins: std.Coins{{Denom: denom, Amount: amt}}})
 				}
+				// one in four is deliberately unbalanced (must be refused, or at least conserve every denom):
+				// a denomination only the outputs carry, only the inputs carry, or unequal amounts
+				if rng.IntN(4) == 0 && len(outs) > 0 {
+					other := kdenoms[(rng.IntN(len(kdenoms)-1)+1+indexOfDenom(denom))%len(kdenoms)]
+					extra := std.Coin{Denom: other, Amount: int64(1 + rng.IntN(1000))}
+					switch rng.IntN(4) {
+					case 0:
+						j := rng.IntN(len(outs))
+						outs[j].Coins = outs[j].Coins.Add(std.Coins{extra})
+						c.Count("keeper_multisend_unbalanced:output-only-denom", 1)
+					case 1:
+						j := rng.IntN(len(ins))
+						ins[j].Coins = ins[j].Coins.Add(std.Coins{extra})
+						c.Count("keeper_multisend_unbalanced:input-only-denom", 1)
+					case 2:
+						outs[0].Coins = outs[0].Coins.Add(std.Coins{{Denom: denom, Amount: 1}})
+						c.Count("keeper_multisend_unbalanced:output-larger", 1)
+					default:
+						ins[0].Coins = ins[0].Coins.Add(std.Coins{{Denom: denom, Amount: 1}})
+						c.Count("keeper_multisend_unbalanced:input-larger", 1)
+					}
+				}
 				kind = fmt.Sprintf("multisend(%v -> %v)", ins, outs)
 				res := h.Process(octx, bank.NewMsgMultiSend(ins, outs))
 				if !res.IsOK() {
@@ -180,4 +202,13 @@ func keeperPhase(c *vf.Ctx) {
 		}
 		c.Case(fmt.Sprintf("keeper/%d/%v", c.Seed, opsLog), true)
 	})
+}
+
+func indexOfDenom(d string) int {
+	for i, x := range kdenoms {
+		if x == d {
+			return i
+		}
+	}
+	return 0
 }
